@@ -3,14 +3,14 @@ NEXT Next
 CONSTANT D = 3
 CONSTANT EmbKind = "top"
 CONSTANT MinSet = 0
-CONSTANT MaxSet = 4
+CONSTANT MaxSet = 8
+CONSTANT SoundMax = 4
 CONSTANT ExhH = 0
 CONSTANT GuidedH = 4
 CONSTANT PermMax = 4
+CONSTANT DupMax = 2
+CONSTANT EmitCases = TRUE
 INVARIANT Canonical
 INVARIANT Complete
-INVARIANT SoundExh
-INVARIANT SoundGuided
-INVARIANT SoundRw
-INVARIANT Emit
+INVARIANT Sound
 CHECK_DEADLOCK FALSE
